@@ -158,7 +158,8 @@ class Prop(object):
                             r.viol('precondition', dict(t, kind='precondition'), one, '%s: %s on a %s key did not refuse' % (label, op, form))
                         continue
                     if refused is not None:
-                        if explicit and enforce:
+                        # (disabling enforcement lifts the refusal when nothing is capable; it does not make a capable component unusable)
+                        if explicit:
                             r.viol('policy', dict(t, kind='capable-but-refused'), one, '%s: %s refused (%r) although component(s) %r are granted the capability by their most recent self-signature'
                                    % (label, op, refused, explicit))
                         elif not enforce and not isinstance(refused, pgpy.errors.PGPError):
@@ -197,8 +198,10 @@ class Prop(object):
                     if enforce and idx not in explicit and idx not in dontcare:
                         r.viol('policy', dict(t, kind='used-component-not-allowed'), one,
                                '%s: %s was performed by component %d whose most recent self-signature does not grant it (granted: %r)' % (label, op, idx, explicit))
-                    elif enforce and not explicit and idx in dontcare:
-                        pass
+                    elif not enforce and explicit and idx not in explicit and idx not in dontcare:
+                        # enforcement off only matters when no component is capable: with a capable component present that one is to be used
+                        r.viol('policy', dict(t, kind='capable-component-bypassed'), one,
+                               '%s: with flag enforcement disabled %s was performed by component %d although component(s) %r are granted the capability' % (label, op, idx, explicit))
 
     def c_configs(self, case):
         r = Res()
